@@ -116,6 +116,7 @@ REGISTRY = {
                 ("quimb.tensor.tnag.core", "tensor_network_apply_op_vec", "which_A"),
             ]),
             P(inplace.rule_inplace_effect, family=lambda f: "gate" in f.name or "apply" in f.name, rule="inplace-effect[gates]", floor=25, controls=0),
+            gating.rule_nonlocal_factorisation,
         ],
         "explanation": (
             "static: decides (narrowly) that the gate-mode vocabulary is closed and validated, that the outer labels are rewired "
